@@ -216,7 +216,7 @@ def check_valid(sym: Symbol, s: str) -> Tuple[bool, Optional[str]]:
         return True, None
 
     if sym.orig_type == FLOAT:
-        if not is_float(s):
+        if not is_float(s) or not sym.value_is_valid(s.strip()):
             err = f"'{s}' is a malformed float value"
             if "," in s and "." not in s:
                 err += "; use a decimal point ('.') not a comma"
@@ -237,6 +237,14 @@ def check_valid(sym: Symbol, s: str) -> Tuple[bool, Optional[str]]:
     try:
         int(s, base)
     except ValueError:
+        return False, f"'{s}' is a malformed {TYPE_TO_STR[sym.orig_type]} value"
+
+    # Accept only what the symbol will take once the dialog has applied it
+    # (hex values get a 0x prefix): e.g. not "-5" for a hex symbol, not "1_0".
+    candidate = s.strip()
+    if sym.orig_type == HEX and not candidate.startswith(("0x", "0X")):
+        candidate = "0x" + candidate
+    if not sym.value_is_valid(candidate):
         return False, f"'{s}' is a malformed {TYPE_TO_STR[sym.orig_type]} value"
 
     for low_sym, high_sym, cond in sym.ranges:
